@@ -156,6 +156,19 @@ func cliSelect(c *fw.Ctx) {
 		var text []byte
 		for k := 0; k < nrec; k++ {
 			gb, _ := cliRecord(rr, 30+rr.Intn(30), false)
+			// "in table order" whatever that order is: a table that is not
+			// sorted (the source feature anywhere in it), a second source
+			// feature further down.
+			if rr.Intn(3) == 0 {
+				t := append([]gts.Feature{}, gb.Table...)
+				rr.Shuffle(len(t), func(i, j int) { t[i], t[j] = t[j], t[i] })
+				gb.Table = t
+				c.Bucket("cli:select table not sorted")
+			}
+			if rr.Intn(6) == 0 {
+				gb.Table = append(append([]gts.Feature{}, gb.Table...), gts.Feature{Key: "source", Loc: gts.Range(0, 1+rr.Intn(gts.Len(gb))), Props: gts.Props{{"label", "src2"}}})
+				c.Bucket("cli:select second source feature down the table")
+			}
 			recs = append(recs, gb)
 			text = append(text, gb.String()...)
 		}
